@@ -211,13 +211,13 @@ def witness_search(fn_paths, seed_expr, limit=40000, extra=()):
         got = None
         for p in fn_paths:
             ok = True
-            for c, taken, inst in p.conds:
+            for cd in p.conds:
                 try:
-                    v = eval_concrete(c, env)
+                    holds = paths.cond_holds(cd, env)
                 except NoValue:
                     ok = False
                     break
-                if bool(v) != bool(taken):
+                if not holds:
                     ok = False
                     break
             if ok:
